@@ -110,6 +110,10 @@ impl Hist {
         if case.salt % 7 == 3 {
             drv.stall_secs = [11, 31, 61, 121, 301][(case.salt / 7 % 5) as usize];
         }
+        // a third of the histories carry a set of protocol-irrelevant request headers
+        if case.salt % 3 == 2 {
+            drv.extra_headers = 1 + ((case.salt / 3) % (crate::driver::N_EXTRA_HEADER_SETS as u32 - 1)) as u8;
+        }
         let clients: Vec<Uuid> = (0..case.nclients).map(|i| crate::case::client_uuid(case.salt, i)).collect();
         Hist {
             drv,
@@ -225,10 +229,14 @@ impl Hist {
             }
             Op::AgeSnapshot { c, days } => {
                 let c = self.clients[*c as usize % self.clients.len()];
-                let done = self.drv.age_snapshot(c, *days as i64).map_err(|e| harness(e, "ageing the snapshot"))?;
+                let age = crate::case::age_days(*days);
+                let done = self.drv.age_snapshot(c, age).map_err(|e| harness(e, "ageing the snapshot"))?;
                 if done {
                     if let Some(s) = &mut self.model.client_mut(c).snap {
-                        s.days = *days as i64;
+                        s.days = age;
+                    }
+                    if *days >= 60000 {
+                        st.label("op:AgeSnapshot(calendar-landmark)");
                     }
                     st.label("op:AgeSnapshot(applied)");
                 }
@@ -621,6 +629,26 @@ impl Hist {
             st.label("c18:skipped-base-corner");
         }
 
+        if self.or.c11 && pred == SnapPred::Replace && matches!(out, Outcome::SnapshotOk) {
+            // an upload the acceptance rule accepts *is* the most recently accepted snapshot from
+            // now on: version id and bytes of this very upload
+            st.check();
+            match self.drv.get_snapshot(c) {
+                Outcome::Snapshot { id, data } if id == v && *data == *bytes => {}
+                o => {
+                    return err(format!(
+                        "step {idx}: AddSnapshot({v} [{class:?}], {} bytes, hash {:016x}) is accepted by the rule (among the five most recent versions, newer than the stored snapshot {:?}); GetSnapshot right afterwards answered {}",
+                        bytes.len(),
+                        hash_bytes(&bytes),
+                        mc.snap.as_ref().map(|s| s.version),
+                        match &o {
+                            Outcome::Snapshot { id, data } => format!("({id}, {} bytes, hash {:016x})", data.len(), hash_bytes(data)),
+                            o => o.short(),
+                        }
+                    ))
+                }
+            }
+        }
         if observed_replace {
             self.model.client_mut(c).apply_snapshot(v, bytes);
         }
